@@ -3,4 +3,237 @@ import MelModel.Seal
 import MelModel.Lemmas.Counts
 import MelModel.Lemmas.FeeMult
 namespace Mel
+open Mel.Gen
+
+/-! ### the builtin pool keys are pairwise distinct -/
+
+theorem poolMelSym_ne_poolMelErg : poolMelSym ≠ poolMelErg := by decide
+theorem poolMelSym_ne_poolErgSym : poolMelSym ≠ poolErgSym := by decide
+theorem poolMelErg_ne_poolErgSym : poolMelErg ≠ poolErgSym := by decide
+
+/-! ### `set` only when missing -/
+
+/-- the step `create_builtins` applies for each builtin key -/
+def AList.setIfNone {κ ν : Type} [DecidableEq κ] (m : AList κ ν) (k : κ) (v : ν) : AList κ ν :=
+  if (m.get k).isNone then m.set k v else m
+
+theorem AList.get_setIfNone_self {κ ν : Type} [DecidableEq κ] (m : AList κ ν) (k : κ) (v : ν) :
+    (m.setIfNone k v).get k = some ((m.get k).getD v) := by
+  unfold AList.setIfNone
+  cases h : m.get k with
+  | none => simp [AList.get_set_self]
+  | some q => simp [h]
+
+theorem AList.get_setIfNone_ne {κ ν : Type} [DecidableEq κ] (m : AList κ ν) {k k' : κ} (v : ν)
+    (hne : k' ≠ k) : (m.setIfNone k v).get k' = m.get k' := by
+  unfold AList.setIfNone
+  split
+  · exact AList.get_set_ne m v hne
+  · rfl
+
+/-! ### pools are never deleted -/
+
+def PoolsGrow (s s' : State) : Prop := ∀ k, (s.pools.get k).isSome → (s'.pools.get k).isSome
+
+theorem PoolsGrow.refl (s : State) : PoolsGrow s s := fun _ h => h
+
+theorem PoolsGrow.trans {a b c : State} (h1 : PoolsGrow a b) (h2 : PoolsGrow b c) : PoolsGrow a c :=
+  fun k h => h2 k (h1 k h)
+
+theorem PoolsGrow.of_set {s s' : State} (k : PoolKey) (p : PoolState)
+    (h : s'.pools = s.pools.set k p) : PoolsGrow s s' := by
+  intro k' hk'
+  rw [h]
+  by_cases hkk : k' = k
+  · subst hkk; rw [AList.get_set_self]; rfl
+  · rw [AList.get_set_ne _ _ hkk]; exact hk'
+
+theorem PoolsGrow.of_eq {s s' : State} (h : s'.pools = s.pools) : PoolsGrow s s' := by
+  intro k hk; rw [h]; exact hk
+
+theorem processSwapsForPool_grow (k : PoolKey) (s : State) (swaps : List Tx) (s' : State)
+    (h : processSwapsForPool k s swaps = .ok s') : PoolsGrow s s' := by
+  unfold processSwapsForPool at h
+  split at h
+  · cases h
+  · simp only at h
+    split at h
+    · cases h
+    · cases h
+    · obtain ⟨coins, _, h2⟩ := Outcome.bind_eq_ok h
+      cases h2; exact PoolsGrow.of_set _ _ rfl
+
+theorem processSwaps_grow (s s' : State) (h : processSwaps s = .ok s') : PoolsGrow s s' := by
+  unfold processSwaps at h
+  exact Outcome.foldlM'_inv (PoolsGrow s) _
+    (fun b a b' hb hf => hb.trans (processSwapsForPool_grow _ _ _ _ hf)) _ _ _ (PoolsGrow.refl s) h
+
+theorem processDepositsForPool_grow (env : Env) (k : PoolKey) (s : State) (deps : List Tx) (s' : State)
+    (h : processDepositsForPool env k s deps = .ok s') : PoolsGrow s s' := by
+  unfold processDepositsForPool at h
+  simp only at h
+  split at h
+  · cases h
+  · cases h
+  · obtain ⟨coins, _, h2⟩ := Outcome.bind_eq_ok h
+    cases h2; exact PoolsGrow.of_set _ _ rfl
+
+theorem processDeposits_grow (env : Env) (s s' : State) (h : processDeposits env s = .ok s') :
+    PoolsGrow s s' := by
+  unfold processDeposits at h
+  exact Outcome.foldlM'_inv (PoolsGrow s) _
+    (fun b a b' hb hf => hb.trans (processDepositsForPool_grow _ _ _ _ _ hf)) _ _ _ (PoolsGrow.refl s) h
+
+theorem processWithdrawalsForPool_grow (k : PoolKey) (s : State) (reqs : List Tx) (s' : State)
+    (h : processWithdrawalsForPool k s reqs = .ok s') : PoolsGrow s s' := by
+  unfold processWithdrawalsForPool at h
+  simp only at h
+  split at h
+  · cases h
+  · split at h
+    · cases h; exact PoolsGrow.refl _
+    · split at h
+      · cases h
+      · cases h
+      · obtain ⟨coins, _, h2⟩ := Outcome.bind_eq_ok h
+        cases h2; exact PoolsGrow.of_set _ _ rfl
+
+theorem processWithdrawals_grow (env : Env) (s s' : State) (h : processWithdrawals env s = .ok s') :
+    PoolsGrow s s' := by
+  unfold processWithdrawals at h
+  exact Outcome.foldlM'_inv (PoolsGrow s) _
+    (fun b a b' hb hf => hb.trans (processWithdrawalsForPool_grow _ _ _ _ hf)) _ _ _ (PoolsGrow.refl s) h
+
+theorem processPegging_grow (s s' : State) (h : processPegging s = .ok s') : PoolsGrow s s' := by
+  unfold processPegging at h
+  simp only at h
+  obtain ⟨⟨a, b⟩, _, h⟩ := Outcome.bind_eq_ok h
+  simp only at h
+  obtain ⟨sm, _, h⟩ := Outcome.bind_eq_ok h
+  split at h
+  · cases h
+  · obtain ⟨sm1, _, h⟩ := Outcome.bind_eq_ok h
+    obtain ⟨sm2, _, h⟩ := Outcome.bind_eq_ok h
+    cases h; exact PoolsGrow.of_set _ _ rfl
+
+/-- every Melmint phase after `create_builtins` keeps the pools that exist -/
+theorem presealMelmint_grow (env : Env) (s s' : State) (h : presealMelmint env s = .ok s') :
+    PoolsGrow (createBuiltins s) s' := by
+  unfold presealMelmint at h
+  simp only at h
+  split at h
+  · cases h
+  · obtain ⟨s1, h1, h⟩ := Outcome.bind_eq_ok h
+    obtain ⟨s2, h2, h⟩ := Outcome.bind_eq_ok h
+    obtain ⟨s3, h3, h⟩ := Outcome.bind_eq_ok h
+    exact (((processSwaps_grow _ _ h1).trans (processDeposits_grow _ _ _ h2)).trans
+      (processWithdrawals_grow _ _ _ h3)).trans (processPegging_grow _ _ h)
+
+theorem applyTip909_grow (s s' : State) (h : applyTip909 s = .ok s') : PoolsGrow s s' := by
+  unfold applyTip909 at h
+  simp only at h
+  split at h
+  · cases h
+  · split at h
+    · cases h
+    · obtain ⟨⟨sm', mel, x⟩, _, h⟩ := Outcome.bind_eq_ok h
+      simp only at h
+      split at h
+      · cases h
+      · split at h
+        · cases h
+        · obtain ⟨⟨es', y, z⟩, _, h⟩ := Outcome.bind_eq_ok h
+          cases h
+          exact (PoolsGrow.of_set (s' := { s with pools := s.pools.set poolMelSym sm' }) _ _ rfl).trans
+            (PoolsGrow.of_set _ _ rfl)
+
+theorem applyProposerAction_grow (env : Env) (s : State) (a : ProposerAction) (s' : State)
+    (h : applyProposerAction env s a = .ok s') : PoolsGrow s s' := by
+  unfold applyProposerAction collectProposerFee at h
+  simp only at h
+  split at h
+  · cases h
+  · cases h; exact PoolsGrow.of_eq rfl
+
+/-- sealing keeps every pool `create_builtins` produced -/
+theorem sealState_grow (env : Env) (s : State) (action : Option ProposerAction) (ss : Sealed)
+    (h : sealState env s action = .ok ss) : PoolsGrow (createBuiltins s) ss.st := by
+  unfold sealState at h
+  obtain ⟨s1, h1, h⟩ := Outcome.bind_eq_ok h
+  split at h
+  · cases h
+  · obtain ⟨s2, h2, h⟩ := Outcome.bind_eq_ok h
+    have h12 : PoolsGrow s1 s2 := by
+      split at h2
+      · exact applyTip909_grow _ _ h2
+      · cases h2; exact PoolsGrow.refl _
+    have g2 := (presealMelmint_grow _ _ _ h1).trans h12
+    split at h
+    · cases h; exact g2
+    · obtain ⟨s3, h3, h⟩ := Outcome.bind_eq_ok h
+      cases h; exact g2.trans (applyProposerAction_grow _ _ _ _ h3)
+
+/-! ### `swap_many` with nothing added on the left keeps reserves -/
+
+theorem swapMany_right_reserves (p p' : PoolState) (r lw rw : Nat) (hr : r ≤ U128_MAX)
+    (h : p.swapMany 0 r = .ok (p', lw, rw)) : 0 < p'.lefts ∧ 0 < p'.rights := by
+  unfold PoolState.swapMany at h
+  simp only at h
+  split at h
+  · cases h
+  · split at h
+    · cases h
+    · split at h
+      · cases h
+      · split at h
+        · cases h
+        · split at h
+          · cases h
+          · rename_i hR hL hlw hrw hR'
+            cases h
+            simp only
+            refine ⟨?_, by omega⟩
+            -- lw ≤ r * L * 995 / (R * 1000) < L
+            generalize hLd : satAdd128 p.lefts 0 = L at *
+            generalize hRd : satAdd128 p.rights r = R at *
+            have hrR : r ≤ R := by rw [← hRd]; unfold satAdd128; omega
+            have hLpos : 0 < L := Nat.pos_of_ne_zero hL
+            have hRpos : 0 < R := Nat.pos_of_ne_zero hR
+            have hq : r * L * 995 / (R * 1000) < L := by
+              apply Nat.div_lt_of_lt_mul
+              have h1 : r * L ≤ R * L := Nat.mul_le_mul_right L hrR
+              have h2 : 0 < R * L := Nat.mul_pos hRpos hLpos
+              calc r * L * 995 ≤ R * L * 995 := Nat.mul_le_mul_right 995 h1
+                _ < R * L * 1000 := by omega
+                _ = R * 1000 * L := by rw [Nat.mul_right_comm]
+            have : satU128 (r * L * 995 / (R * 1000)) ≤ r * L * 995 / (R * 1000) := by
+              unfold satU128; omega
+            omega
+
+/-! ### pro-rata shares add up to at most the total -/
+
+theorem shares_sum_mul_le (T S U : Nat) (ws : List Nat) :
+    (ws.map fun w => min (T * w / S) U).sum * S ≤ T * ws.sum := by
+  induction ws with
+  | nil => simp
+  | cons w ws ih =>
+    simp only [List.map_cons, List.sum_cons, Nat.add_mul, Nat.mul_add]
+    have h1 : min (T * w / S) U * S ≤ T * w :=
+      Nat.le_trans (Nat.mul_le_mul_right S (Nat.min_le_left _ _)) (Nat.div_mul_le_self _ _)
+    omega
+
+/-! ### two values of `Nat.sqrt` (its iteration is irreducible, so `decide` cannot evaluate it) -/
+
+theorem sqrt_one : Nat.sqrt 1 = 1 := by simp [Nat.sqrt]
+
+theorem sqrt_two : Nat.sqrt 2 = 1 := by
+  unfold Nat.sqrt
+  rw [if_neg (by decide)]
+  have h : (1 <<< (Nat.log2 2 / 2 + 1)) = 2 := by decide
+  rw [h]
+  unfold Nat.sqrt.iter
+  simp
+  unfold Nat.sqrt.iter
+  simp
+
 end Mel
